@@ -47,6 +47,10 @@ for bid in ids:
             and (a.aes_rand, a.aes_key, a.hmac_key) == (b.aes_rand, b.aes_key, b.hmac_key) \
             and a.aes_key + a.hmac_key == hashlib.sha256(a.aes_rand).digest() and len(a.aes_rand) == 16 \
             and a.metadata.bid == a.beacon_id and a.c2http.aes_key == a.aes_key and a.c2http.hmac_key == a.hmac_key
+        if ok and a.beacon_id != bid:
+            # the keys belong to the id that is presented: asking for that id directly gives the same keys
+            c_ = dry(beacon_id=a.beacon_id, user="carol")
+            ok = (c_.beacon_id, c_.aes_rand, c_.aes_key, c_.hmac_key) == (a.beacon_id, a.aes_rand, a.aes_key, a.hmac_key)
         got = a.beacon_id
     except ValueError as ex:
         ok, got = want > 0x7FFFFFFF, repr(ex)
